@@ -290,9 +290,14 @@ _ODD_VERSIONS = ['1.0[rc]', '2021 beta', '1.*', 'v?', 'a b', '[1]', '1']
 
 
 def _mini(lid, ver, ili, requires=None):
+    # s0 (the given ILI) -hypernym-> s1 (ILI i2)
     d = {'id': lid, 'version': ver, 'label': lid, 'language': 'en', 'email': 'e', 'license': 'l',
-         'meta': None, 'synsets': [{'id': f'{lid}-s0', 'ili': ili, 'partOfSpeech': 'n',
-                                    'meta': None}]}
+         'meta': None, 'synsets': [
+             {'id': f'{lid}-s0', 'ili': ili, 'partOfSpeech': 'n', 'meta': None,
+              'relations': [{'target': f'{lid}-s1', 'relType': 'hypernym', 'meta': None}]},
+             {'id': f'{lid}-s1', 'ili': 'i2', 'partOfSpeech': 'n', 'meta': None}]}
+    if lid == 'L':
+        d['synsets'][0].pop('relations')          # L borrows its relations
     if requires:
         d['requires'] = requires
     return d
@@ -307,12 +312,19 @@ def _dep_cases(draw):
     chosen = [d for d in decoys if d != ('P', ver) and draw(st.booleans())]
     lexs = [_mini('P', ver, 'i1')] + [_mini(i, v, 'i1') for i, v in chosen]
     L = _mini('L', '1', 'i1', [{'id': 'P', 'version': ver}])
-    order = draw(st.permutations(lexs + [L]))
-    return {'docs': list(order), 'provider': ['P', ver]}
+    more = []
+    if draw(st.booleans()):
+        # a second selected lexicon with the same dependencies: still one expand lexicon
+        more = [_mini('M', '1', 'i1', [{'id': 'P', 'version': ver}])]
+    order = draw(st.permutations(lexs + [L] + more))
+    return {'docs': list(order), 'provider': ['P', ver],
+            'selection': 'L:1 M:1' if more else 'L:1'}
 
 
 def _dep_classify(case):
     tags = {'version:' + case['provider'][1]}
+    if case.get('selection') == 'L:1 M:1':
+        tags.add('two-dependents-one-provider')
     if len(case['docs']) > 2:
         tags.add('decoys')
     if case['docs'][0]['id'] == 'L' or [d['id'] for d in case['docs']].index('L') < \
@@ -330,7 +342,7 @@ def _dep_oracle(case):
     out = []
     with warnings.catch_warnings(record=True) as caught:
         warnings.simplefilter('always')
-        w = observe.call(wn.Wordnet, 'L:1')
+        w = observe.call(wn.Wordnet, case.get('selection', 'L:1'))
     if _raised(w):
         return [Disc('dependency:wordnet-raises', "Wordnet('L:1')", 'a Wordnet', w,
                      note=str(case['provider']))]
@@ -341,6 +353,15 @@ def _dep_oracle(case):
     if caught:
         out.append(Disc('dependency:unexpected-warning', "Wordnet('L:1')", [],
                         [str(c.message) for c in caught]))
+    # the borrowed relation keeps the expand lexicon as its lexicon
+    if not out:
+        for r, tgt in w.synset('L-s0').relation_map().items():
+            lx = observe.call(r.lexicon)
+            got_lx = lx if _raised(lx) else [lx.id, lx.version]
+            # (with two selected lexicons relation_map() keeps one of the local targets)
+            if got_lx != case['provider'] or key_of(tgt) not in ('L:1|L-s1', 'M:1|M-s1'):
+                out.append(Disc('dependency:relation-lexicon', 'L-s0 hypernym .lexicon()',
+                                [case['provider'], 'L:1|L-s1'], [got_lx, key_of(tgt)]))
     return out
 
 
